@@ -7,7 +7,7 @@ N_L == <<76>>
 LST == MkCmd(N_L, FALSE, FALSE, TRUE, TRUE, <<>>)
 G2(d) == <<[disable |-> FALSE], [disable |-> d]>>
 TL(cap, d, dis, ot) == MkCfgG(<<LST, [MkCmd(N_AB, TRUE, FALSE, TRUE, FALSE, <<U8(D5)>>) EXCEPT !.group = 1, !.disable = dis],
-                                [MkCmd(N_B, FALSE, TRUE, FALSE, TRUE, <<>>) EXCEPT !.only_test = ot, !.hasdesc = TRUE, !.desc = <<100>>]>>, G2(d), cap, cap, 1, FALSE)
+                                [MkCmd(N_B, FALSE, TRUE, FALSE, TRUE, <<>>) EXCEPT !.group = 1, !.only_test = ot, !.hasdesc = TRUE, !.desc = <<100>>]>>, G2(d), cap, cap, 1, FALSE)
 MCTables == {TL(cap, d, dis, ot) : cap \in {6, 7, 8, 20}, d \in BOOLEAN, dis \in BOOLEAN, ot \in BOOLEAN}
 MCTablesQ == {TL(cap, d, dis, FALSE) : cap \in {7, 20}, d \in BOOLEAN, dis \in BOOLEAN}
 MCPrefix == <<65, 84>>
